@@ -87,6 +87,8 @@ class Run:
                                 imputer=self.imputer)
 
     def row(self, r):
+        if self.cls in ('pfi', 'sage'):
+            return self.h.row(r)
         x = {n_: num(v, self.mode) for n_, v in zip(self.names, r['x'])}
         return x, num(r['y'], self.mode)
 
@@ -198,6 +200,11 @@ def enumerate_case(case, ctx=None, pairs='sample'):
     """Returns Result; enumerates every single fault position (and fault pairs)."""
     dry = Run(case)
     counts, fail = dry.execute({})
+    if fail and fail[0].endswith('unexpected-exception:TypeError') and case['cfg'].get('mode') == 'exact':
+        # float-only (NumPy) functions applied to losses: enumerate the fault positions of the float twin instead
+        case = dict(case, cfg=dict(case['cfg'], mode='float'))
+        dry = Run(case)
+        counts, fail = dry.execute({})
     if fail:
         return Result(False, key=fail[0].replace('C17:', 'C17:dry-run:'), detail=fail[1])
     positions = [(t, k) for t, K in enumerate(counts) for k in range(1, K + 1)]
